@@ -35,6 +35,10 @@ class CollectionValue(GenericValue):
 
     def _get_changes(self) -> Iterator[Change]:
 
+        if self._new_value is undefined:
+            # nothing was recorded (the value could not be copied, the test got a UsageError)
+            return
+
         if not isinstance(self._old_value, list) or not isinstance(
             self._ast_node, (ast.List, type(None))
         ):
